@@ -64,6 +64,7 @@ type State struct {
 	useOld   bool
 	steps    int
 	freshErrs []string
+	appendInplace bool // which outcome of append this path explores (set by the interpreter at the fork)
 	facts    map[string]bool
 	frontier string
 	isAxiom  map[int]bool
